@@ -545,4 +545,142 @@ OpenOpOK(e, idx) ==
   /\ Chk("GENERATOR", idx, \A n \in 1..Len(e.onProbes) : OnOpenPaths(e.onProbes[n], ScalePaths(e.open, e.k)))
   /\ Has(e, "ARGS") => Chk("ARGS", idx, e.argsSame)
   /\ Has(e, "C09") => Chk("C09", idx, C09OK(e))
+
+(***************************************************************************)
+(* Offsetting (C05 polygons, C10 open paths).  Radii are integers in       *)
+(* quarter units: delta4 = 4 delta, tol4 = 4 (2 + arc tolerance).  The     *)
+(* factor k of the property is a rational upper enclosure times 1000.      *)
+(* "Sure" predicates guarantee the distance claim (they under-approximate  *)
+(* "within r"), Near/Far are the permissive ones of Geometry, so every     *)
+(* implication below is weaker than the property, never stronger.          *)
+(***************************************************************************)
+SrcClosed(e) == e.et = 0 \/ e.et = 1
+StripDup(path, closed) ==
+  LET n == Len(path)
+      f[i \in 0..n] == IF i = 0 THEN <<>> ELSE IF i > 1 /\ path[i] = path[i - 1] THEN f[i - 1] ELSE Append(f[i - 1], path[i])
+      r == f[n]
+  IN  IF closed /\ Len(r) > 1 /\ r[Len(r)] = r[1] THEN SubSeq(r, 1, Len(r) - 1) ELSE r
+
+Tol4(e) == IF e.arc4 > 0 THEN 8 + e.arc4 ELSE 9
+\* the library offsets the paths with consecutive duplicates removed; a path that collapses to one point
+\* is offset as a square (a circle for Round ends) of "radius" delta
+Src(e) == [k \in 1..Len(e.paths) |-> StripDup(e.paths[k], SrcClosed(e))]
+HasPointPath(e) == \E k \in 1..Len(e.paths) : Len(Src(e)[k]) = 1
+K1000(e) ==
+  LET j == CASE e.jt = 1 -> 1415 [] e.jt = 0 -> Max2(1415, (e.miter4 * 1000 + 3) \div 4) [] OTHER -> 1000
+      c == IF e.et = 3 \/ (e.et = 1 /\ e.jt # 3) \/ (e.et # 4 /\ HasPointPath(e)) THEN 1415 ELSE 1000
+  IN  Max2(j, c)
+
+SureStrip(p, a, b, r4) ==
+  LET dx == b[1] - a[1] dy == b[2] - a[2] t == Dot(p[1] - a[1], p[2] - a[2], dx, dy) IN
+  /\ a # b /\ t >= 0 /\ t <= Dot(dx, dy, dx, dy)
+  /\ 4 * Abs(Cross(dx, dy, p[1] - a[1], p[2] - a[2])) <= r4 * LenLB(dx, dy)
+SureNearPt(p, a, r4) == r4 > 0 /\ 16 * D2(p, a) <= r4 * r4
+SureNearSeg(p, a, b, r4) ==
+  LET dx == b[1] - a[1] dy == b[2] - a[2] t == Dot(p[1] - a[1], p[2] - a[2], dx, dy) IN
+  r4 > 0 /\ (IF t <= 0 THEN SureNearPt(p, a, r4)
+             ELSE IF t >= Dot(dx, dy, dx, dy) THEN SureNearPt(p, b, r4)
+             ELSE 4 * Abs(Cross(dx, dy, p[1] - a[1], p[2] - a[2])) <= r4 * LenLB(dx, dy))
+\* last edge index of a source path (closing edge included for closed sources)
+LastEdge(e, path) == IF SrcClosed(e) THEN Len(path) ELSE Len(path) - 1
+\* Strip points whose foot is within the tolerance of a segment end (measured along the segment) are not
+\* demanded: at a Butt end the stroke stops exactly at the end point, and at a hairpin turn a Bevel join
+\* passes through the vertex itself, so such points lie on the boundary of the exact offset region
+AwayFromEnd(p, a, b, tol4, atStart, atEnd) ==
+  LET dx == b[1] - a[1] dy == b[2] - a[2] t == Dot(p[1] - a[1], p[2] - a[2], dx, dy) l == LenUB(dx, dy) IN
+  /\ atStart => 4 * t >= tol4 * l
+  /\ atEnd => 4 * (Dot(dx, dy, dx, dy) - t) >= tol4 * l
+InStrips(e, p, r4) ==
+  r4 > 0 /\ \E k \in 1..Len(e.paths) :
+     LET q == Src(e)[k] IN
+     \E i \in 1..LastEdge(e, q) :
+        /\ SureStrip(p, q[i], Nxt(q, i), r4)
+        /\ AwayFromEnd(p, q[i], Nxt(q, i), Tol4(e), TRUE, TRUE)
+SureNearSrc(e, p, r4) ==
+  r4 > 0 /\ \E k \in 1..Len(e.paths) :
+     LET q == Src(e)[k] IN
+     \/ Len(q) = 1 /\ SureNearPt(p, q[1], r4)
+     \/ \E i \in 1..LastEdge(e, q) : SureNearSeg(p, q[i], Nxt(q, i), r4)
+NearSrc(e, p, r4) == IF SrcClosed(e) THEN ~FarClosed(p, e.paths, r4) ELSE ~FarOpen(p, e.paths, r4)
+
+\* Butt ends: a filled point is next to a segment (not beyond its end by more than the tolerance) or next to an interior vertex
+ButtOK(e, p, outer4, tol4) ==
+  \E k \in 1..Len(e.paths) :
+    LET q == Src(e)[k] IN
+    \/ \E i \in 1..(Len(q) - 1) :
+         LET a == q[i] b == q[i + 1] dx == b[1] - a[1] dy == b[2] - a[2]
+             t == Dot(p[1] - a[1], p[2] - a[2], dx, dy) l == LenUB(dx, dy) IN
+         /\ a # b
+         /\ 4 * t >= -(tol4 * l) /\ 4 * (t - Dot(dx, dy, dx, dy)) <= tol4 * l
+         /\ ~FarLine(p, a, b, outer4)
+    \/ \E i \in 2..(Len(q) - 1) : ~FarSeg(p, q[i], q[i], outer4)
+    \/ Len(q) = 1 /\ ~FarSeg(p, q[1], q[1], outer4)
+
+\* precondition of C05: a simple polygon set, holes strictly inside, orientations alternating with depth
+SimplePath(path) ==
+  LET n == Len(path) IN
+  /\ n >= 3
+  /\ \A i \in 1..n : path[i] # Nxt(path, i)
+  /\ \A i, j \in 1..n : i < j =>
+       LET a == path[i] b == Nxt(path, i) c == path[j] d == Nxt(path, j) IN
+       IF j = i + 1 THEN ~OnSeg(d, a, b) /\ ~OnSeg(a, c, d)
+       ELSE IF i = 1 /\ j = n THEN ~OnSeg(c, a, b) /\ ~OnSeg(b, c, d)
+       ELSE ~SegsMeet(a, b, c, d)
+PathsApart(p, q) == \A i \in 1..Len(p), j \in 1..Len(q) : ~SegsMeet(p[i], Nxt(p, i), q[j], Nxt(q, j))
+DepthOf(paths, k) == Cardinality({j \in 1..Len(paths) : j # k /\ WnPath(paths[k][1], paths[j]) # 0})
+ValidPolySetG(paths, g) ==
+  /\ Len(paths) >= 1
+  /\ \A k \in 1..Len(paths) : SimplePath(paths[k])
+  /\ \A k, m \in 1..Len(paths) : k < m => PathsApart(paths[k], paths[m])
+  /\ \A k \in 1..Len(paths) : Sgn(Area2(paths[k])) = g * (IF DepthOf(paths, k) % 2 = 0 THEN 1 ELSE -1)
+ValidPolySet(paths) == \E g \in {1, -1} : ValidPolySetG(paths, g)
+\* with two AddPaths groups each group is offset on its own (orientation is decided per group), so each
+\* must be a valid polygon set of the same global orientation
+ValidGroups(e) ==
+  \E g \in {1, -1} :
+     /\ ValidPolySetG(e.paths, g)
+     /\ (e.split > 0 /\ e.split < Len(e.paths)) =>
+           (ValidPolySetG(SubSeq(e.paths, 1, e.split), g) /\ ValidPolySetG(SubSeq(e.paths, e.split + 1, Len(e.paths)), g))
+
+InflateRegionOK(e) ==
+  LET ad == Abs(e.delta4) tol4 == Tol4(e)
+      outer4 == (K1000(e) * ad + 999) \div 1000 + tol4
+      polygon == e.et = 0
+      InSrc(p) == polygon /\ WnPaths(p, e.paths) # 0
+      grow == e.delta4 > 0 \/ ~polygon
+      \* polygons given with negative outer boundaries come back negatively oriented as a whole
+      rev == polygon /\ \E k \in 1..Len(e.paths) : DepthOf(e.paths, k) = 0 /\ Area2(e.paths[k]) < 0
+  IN
+  \A n \in 1..Len(e.probes) :
+    LET p == e.probes[n] IN
+    /\ CanonicalAt(e.sol, rev, p)
+    /\ IF grow
+       THEN /\ (InSrc(p) /\ FarClosed(p, e.paths, Band4)) => In(e.sol, p)
+            /\ InStrips(e, p, ad - tol4) => In(e.sol, p)
+            /\ (e.jt = 3 /\ polygon) => (SureNearSrc(e, p, ad - tol4) => In(e.sol, p))
+            /\ (In(e.sol, p) /\ ~InSrc(p)) => NearSrc(e, p, outer4)
+       ELSE /\ (~InSrc(p) /\ FarClosed(p, e.paths, Band4)) => ~In(e.sol, p)
+            /\ InStrips(e, p, ad - tol4) => ~In(e.sol, p)
+            /\ e.jt = 3 => (SureNearSrc(e, p, ad - tol4) => ~In(e.sol, p))
+            /\ (~In(e.sol, p) /\ InSrc(p)) => NearSrc(e, p, outer4)
+    \* open-path specifics (C10)
+    /\ (e.et = 2 /\ In(e.sol, p)) => ButtOK(e, p, outer4, tol4)
+    /\ (e.et \in {3, 4}) =>
+          \A k \in 1..Len(e.paths) : Len(e.paths[k]) >= 1 =>
+             ((SureNearPt(p, e.paths[k][1], ad - tol4) \/ SureNearPt(p, e.paths[k][Len(e.paths[k])], ad - tol4)) => In(e.sol, p))
+    \* a single point becomes a square / circle of radius delta
+    /\ (~polygon /\ \E k \in 1..Len(e.paths) : Len(Src(e)[k]) = 1 /\ SureNearPt(p, Src(e)[k][1], ad - tol4)) => In(e.sol, p)
+
+InflateOK5(e) ==
+  /\ \A k \in 1..Len(e.sol) : PathCanonical(e.sol[k]) \/ Abs(e.delta4) < 2
+  /\ IF Abs(e.delta4) < 2
+     THEN e.sol = [k \in 1..Len(e.paths) |-> StripDup(e.paths[k], SrcClosed(e))]
+     ELSE InflateRegionOK(e)
+
+InflateOK(e, idx) ==
+  /\ Chk("OUT", idx, OutOK(e))
+  /\ Has(e, "ARGS") => Chk("ARGS", idx, e.argsSame)
+  /\ Has(e, "DET") => Chk("DET", idx, e.sol2same)
+  /\ Has(e, "C05") => (Chk("GENERATOR", idx, e.et = 0 /\ ValidGroups(e)) /\ Chk("C05", idx, InflateOK5(e)))
+  /\ Has(e, "C10") => (Chk("GENERATOR", idx, e.et \in 1..4 /\ e.delta4 >= 2) /\ Chk("C10", idx, InflateOK5(e)))
 =============================================================================
